@@ -1028,7 +1028,7 @@ fn stringify(
                 )
             }
         },
-        ErrorKind(kind) => format!("{kind}"),
+        ErrorKind(kind) => kind.to_localized_error_string(language),
         ParseErrorKind { formula, .. } => formula.to_string(),
         EmptyArgKind => "".to_string(),
         SpillRangeOperator { child } => {
